@@ -4,3 +4,4 @@ pub mod exec;
 pub mod gen;
 pub mod print;
 pub mod val;
+pub mod lexdecor;
